@@ -293,7 +293,7 @@ class Faults(Family):
     split_depth = 10
 
     def configs(self, tier):
-        return [{"gz": gz, "n_max": n} for gz in (False, True) for n in ((2,) if tier == "quick" else (3,))]
+        return [{"gz": gz, "n_max": n} for gz in (False, True) for n in ((3,) if tier == "quick" else (4,))]
 
     def run(self, ctx, inst, gz, n_max):
         env = make_env(ctx, gz)
@@ -374,7 +374,7 @@ class Kills(Family):
 
     def configs(self, tier):
         return [{"gz": gz, "present": p, "dea": d, "fail_first": f} for gz in (False, True) for p in (False, True)
-                for d in (False, True) for f in ((False,) if tier == "quick" else (False, True)) if (p or not d)]
+                for d in (False, True) for f in (False, True) if (p or not d)]
 
     def run(self, ctx, inst, gz, present, dea, fail_first):
         env = make_env(ctx, gz)
@@ -539,9 +539,9 @@ META = {
                    "invocations in threads passing a baton). The explorer forks on these variables exactly as on numeric "
                    "comparisons. Counterexamples are replayed on a real temporary directory with the same step "
                    "discipline (real pickle, real sha256, real os.rename, real np.loadtxt, gzip).",
-    "bounds": {"quick": "n_retries in 0..2 with 4 attempt outcomes, kill before any of the <= 14 steps, plain and gzip, "
+    "bounds": {"quick": "n_retries in 0..3 with 5 attempt outcomes, kill before any of the <= 14 steps (also after a failed first attempt), plain and gzip, "
                         "2 concurrent loaders, orderings AB/BA/ABA/BAB of two datasets, 4 pairs of real loaders",
-               "thorough": "n_retries in 0..3 with 5 attempt outcomes, kills also with a failed first attempt, 3 concurrent loaders"},
+               "thorough": "n_retries in 0..4 with 6 attempt outcomes, 3 concurrent loaders"},
     "outside": ["4..16 concurrent loaders", "kill granularity finer than call boundaries + the two partial-write points",
                 "kills combined with concurrency", "real sockets / disks / processes (kill = frozen file system)",
                 "all 76x76 orderings of the real loaders (4 pairs are run; pairwise-distinct cache slots for all are "
